@@ -188,7 +188,7 @@ pub fn spec(prop: &str) -> Option<WorldCheck> {
             rule: "WORLD scenarios: 1-3 payments, HTLCs whose metadata carries the invoice of another hash, late HTLCs after success, crashes/restarts, write faults. Oracle at every resolve answer: sha256(key)==htlc hash and a complete part or Succeeded record of that hash exists; at every pay arrival: no held HTLC carrying that invoice has a different hash. Non-trivial: a resolve was produced and the scenario has >=2 hashes or a restart; distinct by abstract trace hash.",
             profile: Profile { max_payments: 3, w_hash_mismatch: 25, w_reject: 4, w_under: 8, ..d.clone() },
             thorough_profile: Some(Profile { max_payments: 3, w_hash_mismatch: 15, max_parts: 4, ..d.clone() }),
-            cases_quick: 150,
+            cases_quick: 600,
             cases_thorough: 4000,
             nontrivial: |s| s.resolves > 0 && (s.hashes_with_trampoline >= 2 || s.crashes > 0),
             classes: |s| {
@@ -204,7 +204,7 @@ pub fn spec(prop: &str) -> Option<WorldCheck> {
             rule: "WORLD histories: pay outcomes leaving parts pending, part resolutions between the RPCs of wait_payment, rejecting HTLCs during payment, crashes with parts pending, single write faults (reject / applied-but-error) at generated positions; thorough adds read faults. Oracle at every fail answer of a trampoline HTLC: no part of the hash pending/complete and no pay running. Non-trivial: an outgoing attempt existed (>=1 pay) and >=1 HTLC was answered after it; distinct by abstract trace hash.",
             profile: Profile { w_crash: 7, w_under: 5, w_reject: 10, ..d.clone() },
             thorough_profile: Some(Profile { w_crash: 7, w_under: 5, read_faults: true, ..d.clone() }),
-            cases_quick: 200,
+            cases_quick: 800,
             cases_thorough: 6000,
             nontrivial: |s| s.pays > 0 && s.answered_after_attempt > 0,
             classes: |s| {
@@ -221,7 +221,7 @@ pub fn spec(prop: &str) -> Option<WorldCheck> {
             rule: "WORLD: amount multisets around the funding threshold (exact, +-1, far under/over), 1-5 parts, declared totals independent of real amounts, HTLCs arriving while the lifecycle is fetching/recording, restarts. Oracle at every pay arrival: held sum >= amount + base + floor(amount*ppm/1e6) (u128), maxfee <= held sum - amount, amount_msat absent iff invoice has an amount else equal to declared, bolt11 carried by a held HTLC; afterwards no counted HTLC is answered before the payment's fate is known. Non-trivial: a pay was funded by >=2 HTLCs or followed a restart.",
             profile: Profile { max_parts: 5, w_under: 30, w_reject: 4, w_nontramp: 2, ..d.clone() },
             thorough_profile: Some(Profile { max_parts: 5, w_under: 30, extreme_cfg: true, ..d.clone() }),
-            cases_quick: 200,
+            cases_quick: 800,
             cases_thorough: 6000,
             nontrivial: |s| s.multi_htlc_pay > 0 || s.pay_after_restart > 0,
             classes: |s| {
@@ -237,7 +237,7 @@ pub fn spec(prop: &str) -> Option<WorldCheck> {
             rule: "WORLD: expiries clustered around height+safety delta+-2 and +-policy delta, heights advancing between HTLCs (notifications and silent changes), extreme delta pairs. Oracle at pay arrival: maxdelay <= min(policy delta, sat(sat(min expiry of HTLCs held at the intent write - height told then) - safety delta) clamped to u16); a low-relative-expiry HTLC arriving before the set is funded means no pay. Non-trivial: >=2 different expiries, or height changed during collection, or the bound saturated at 0 / hit the policy cap.",
             profile: Profile { max_parts: 4, w_reject: 12, w_crash: 2, extreme_cfg: false, ..d.clone() },
             thorough_profile: Some(Profile { max_parts: 4, extreme_cfg: true, ..d.clone() }),
-            cases_quick: 200,
+            cases_quick: 800,
             cases_thorough: 6000,
             nontrivial: |s| s.c04_nontrivial > 0,
             classes: |s| {
@@ -252,7 +252,7 @@ pub fn spec(prop: &str) -> Option<WorldCheck> {
             rule: "WORLD: overlap of two lifecycles of one hash, crashes around the intent writes and the pay, stored histories Free / Pending(+-parts) / Succeeded, write faults. Oracle at every pay arrival: no part of that hash pending/complete and no other pay running; end of run: at most one completed payment group per hash. Non-trivial: the hash had an earlier attempt record or part when a new set began; distinct by abstract trace hash.",
             profile: Profile { w_crash: 8, w_under: 5, w_reject: 3, max_parts: 2, ..d.clone() },
             thorough_profile: Some(Profile { w_crash: 8, max_parts: 4, ..d.clone() }),
-            cases_quick: 200,
+            cases_quick: 800,
             cases_thorough: 6000,
             nontrivial: |s| s.earlier_attempt_when_ready > 0,
             classes: |s| {
@@ -268,7 +268,7 @@ pub fn spec(prop: &str) -> Option<WorldCheck> {
             rule: "WORLD: 2-5 parts, a rejecting HTLC (conflicting invoice/amount, low relative expiry, low declared total) at every position, arrival while the state fetch or recovery RPCs are withheld. Oracle: whenever one HTLC of a hash is answered, all HTLCs held for it are answered in the same instant with identical responses; a rejection before the set is funded means no pay for that lifecycle. Non-trivial: >=2 HTLCs answered in one instant, or a rejecting HTLC among >=2.",
             profile: Profile { max_parts: 5, w_reject: 30, w_under: 10, w_crash: 2, ..d.clone() },
             thorough_profile: None,
-            cases_quick: 200,
+            cases_quick: 800,
             cases_thorough: 8000,
             nontrivial: |s| s.max_batch >= 2 || s.rejecting_in_multi > 0,
             classes: |s| {
@@ -284,7 +284,7 @@ pub fn spec(prop: &str) -> Option<WorldCheck> {
             rule: "WORLD: as C05 plus every write-fault kind at generated positions; two lifecycles of one hash with the first one's bookkeeping delayed. Oracle after every applied effect (each prefix is a crash image): parts pending/complete => stored state Pending or Succeeded; stored Pending at every pay arrival; Free written only when nothing is live; Succeeded holds a 32-byte preimage of the key's hash. Non-trivial: a part existed and a state write was applied after it, or a write fault was hit.",
             profile: Profile { w_crash: 6, w_under: 5, w_reject: 3, max_parts: 2, ..d.clone() },
             thorough_profile: None,
-            cases_quick: 200,
+            cases_quick: 800,
             cases_thorough: 8000,
             nontrivial: |s| s.state_write_after_part > 0 || s.write_faults_hit > 0,
             classes: |s| {
@@ -299,7 +299,7 @@ pub fn spec(prop: &str) -> Option<WorldCheck> {
             rule: "WORLD in virtual time: timeouts 0..120 s, partial HTLCs spread over ticks, restarts with downtimes on a 5 s grid incl. far beyond the timeout. Oracle for sets that never reach the total (no rejection, no attempt live): answer is 0x2019, no pay, t_fail in [t_fetch+T, t_fetch+T+1s] when the stored state was free, t_fail <= t_recovery+T(+1s) after a restart, immediate when the attempt is older than T+5 s. Non-trivial: such a set with >=2 HTLCs at different seconds, or after a restart.",
             profile: Profile { w_under: 75, w_reject: 2, w_nontramp: 0, w_hash_mismatch: 0, w_tick: 25, w_crash: 6, write_faults: false, mpp_choices: &[0, 5, 10, 30, 60, 120], max_parts: 3, ..d.clone() },
             thorough_profile: None,
-            cases_quick: 200,
+            cases_quick: 800,
             cases_thorough: 8000,
             nontrivial: |s| s.c11_multi_or_restart > 0,
             classes: |s| {
@@ -384,8 +384,8 @@ pub fn run_c09(tier: Tier, seed: u64) -> i32 {
     // a zero MPP timeout makes the plugin fail every set at once, paid or not: nothing to probe
     const NONZERO: &[u64] = &[5, 10, 60, 60, 120];
     let base_prof = Profile { mpp_choices: NONZERO, probe: true, max_payments: 1, max_parts: 2, w_under: 5, w_reject: 3, w_nontramp: 0, w_hash_mismatch: 0, steps: 0..10, heights: false, ..d.clone() };
-    enumerate_faults(&mut s, "C09", tier.pick(10, 250), &base_prof, nontrivial, classes);
+    enumerate_faults(&mut s, "C09", tier.pick(30, 250), &base_prof, nontrivial, classes);
     let prof = Profile { mpp_choices: NONZERO, probe: true, w_crash: 8, max_payments: 2, w_under: 5, ..d.clone() };
-    s.search("world-random-crashes", "world", tier.pick(100, 3000), move || scenario_strategy(prof.clone()), &case);
+    s.search("world-random-crashes", "world", tier.pick(300, 3000), move || scenario_strategy(prof.clone()), &case);
     s.finish()
 }
